@@ -37,14 +37,14 @@ CLAIMS["C11"] = ('Panic-freedom, bounded pre-allocation and loop progress of the
 CLAIMS["C01"] = ("Proof-level (Verus, unbounded) that grin's Rust code ASSEMBLES AND ENFORCES the balance equation over an abstract additive group: sum_commitments(overage) = outputs - inputs + overage*H for both signs of the overage and fails on i64::MIN; sum_kernel_excesses = (kernels, kernels + offset*G); verify_kernel_sums accepts iff the two sides are equal; TransactionBody::validate batch-verifies the range proof of EVERY output against that output's own commitment and the signature of every kernel (iterator loop with invariant); Transaction::validate / TransactionBody::validate_read / verify_features / Block::validate return Ok only if every listed rule was checked with the right operands (fee as overage for a tx, minus the subsidy and total-minus-previous offset for a block, coinbase check, lock heights, NRD rule); pipe::verify_block_sums stores exactly the sums verified over (parent's stored sums + block); header overage == -60 grin, total_overage, reward (Kani, full domain). NOT decided: that libsecp256k1 implements the group, range proofs and signatures (cryptographic assumptions), and the 'after any accepted history' clause (stored sums vs full state across reorgs).",
     VERUS_TB + KANI_TB + "all commitment arithmetic is libsecp256k1 behind FFI: modelled by assumed group contracts; callees of the validators are uninterpreted predicates.",
     'Verus contracts on extracted real functions over an abstract group + conjunction-of-checks contracts; Kani for the scalar side', "6 C01")
-CLAIMS["C02"] = ("Proof-level (Verus) on the real code of (a) the unspent-leaf bitmap algebra: LeafSet add/remove change exactly one position, rewind(cutoff, rm) yields (old restricted to <= cutoff) union rm as a whole-view postcondition, discard restores the last flushed bitmap; (b) the single-input / single-output admission decision of UTXOView: validate_input returns (out, pos) only if the index maps the commitment to pos, the output MMR holds out at pos-1 and out's commitment is the input's; it fails when the commitment is not indexed or the leaf is gone; validate_output fails on an indexed, still-present duplicate; (c) the state changes of Extension: apply_input succeeds only on an unspent leaf and marks the same position spent in both the output and range-proof MMRs, apply_output refuses an indexed still-unspent duplicate commitment and otherwise pushes output and proof at the same position, apply_block returns Ok only if every output went through apply_output, the inputs passed validate_inputs against this extension's state, every resolved input went through apply_input and the position/spent indexes were updated for exactly those; input_pos_to_rewind; (d) the fork machinery: rewind_and_apply_header_fork / rewind_and_apply_fork rewind to the first common ancestor (of the header being applied / of the current head) and re-apply exactly the stored headers / blocks between that point and the target, oldest first, each block only after coinbase maturity, UTXO validation and block sums were re-verified (termination of the walks not proved). The chain-level statement over forks, reorganisations, restart and compaction is a history property and is not decided.",
+CLAIMS["C02"] = ("Proof-level (Verus) on the real code of (a) the unspent-leaf bitmap algebra: LeafSet add/remove change exactly one position, rewind(cutoff, rm) yields (old restricted to <= cutoff) union rm as a whole-view postcondition, discard restores the last flushed bitmap; (b) the single-input / single-output admission decision of UTXOView: validate_input returns (out, pos) only if the index maps the commitment to pos, the output MMR holds out at pos-1 and out's commitment is the input's; it fails when the commitment is not indexed or the leaf is gone; validate_output fails on an indexed, still-present duplicate; (c) the state changes of Extension: apply_input succeeds only on an unspent leaf and marks the same position spent in both the output and range-proof MMRs, apply_output refuses an indexed still-unspent duplicate commitment and otherwise pushes output and proof at the same position, apply_block returns Ok only if every output went through apply_output, the inputs passed validate_inputs against this extension's state, every resolved input went through apply_input and the position/spent indexes were updated for exactly those; input_pos_to_rewind; (d) the fork machinery: rewind_and_apply_header_fork / rewind_and_apply_fork rewind to the first common ancestor (of the header being applied / of the current head) and re-apply exactly the stored headers / blocks between that point and the target, oldest first, each block only after coinbase maturity, UTXO validation and block sums were re-verified (termination of the walks not proved); Extension::rewind undoes exactly the blocks above the target, newest first, through rewind_single_block, which rewinds the MMRs to the previous header's sizes handing over exactly the block's spent positions, removes every created output from the position index and restores the entry of every re-unspent output. The chain-level statement over forks, reorganisations, restart and compaction is a history property and is not decided.",
     VERUS_TB + "croaring::Bitmap is C code: its operations are assumed set operations; the LMDB index and output MMR are uninterpreted functions; positions < 2^32-1; index positions >= 1.",
     'Verus contracts on extracted real functions over abstract bitmap / index / MMR views', "6 C02")
 CLAIMS["C03"] = ("The 'head only ever moves to a fully validated block with strictly more cumulative difficulty' clause, proof-level: (Verus, extracted text incl. the extension closures lifted to named functions) "
     "pipe::process_block moves the stored chain head ONLY to the tip of the block being processed, ONLY if it has strictly more total difficulty than the head read at the start, and ONLY after check_known, the PoW check, header "
     "processing, validate_block and the whole extension closure (fork rewind, coinbase maturity, UTXO validation, block sums, apply + roots/sizes) succeeded; otherwise the extension is force-rolled-back and the head untouched; "
     "process_block_header / process_block_headers do the same for the header head (every header of a sync batch validated first). (Kani, full domain) has_more_work(h, tip) <=> h.total_difficulty > tip.total_difficulty for all u64 "
-    "pairs, the derived ordering on Difficulty is the numeric one, Tip::from_header copies height/prev/difficulty. Delivery-order independence, orphan handling and head = argmax over accepted blocks are whole-history properties "
+    "pairs, the derived ordering on Difficulty is the numeric one, Tip::from_header copies height/prev/difficulty. Chain::process_block re-checks the orphans waiting for height+1 after EVERY accepted block, also one that did not move the head (Verus). Delivery-order independence, the orphan pool itself and head = argmax over accepted blocks are whole-history properties "
     "through LMDB and are not decided.",
     VERUS_TB + KANI_TB + "txhashset::extending / header_extending are assumed (they build structs holding &mut borrows): Ok(v) only if the closure returned Ok(v), closure writes kept only without a forced rollback; the validation callees are uninterpreted 'this check passed' predicates; header hash stubbed to a constant in the Kani unit.",
     "Verus conjunction contracts on extracted real functions with lifted closures + Kani full-domain harness", "6 C03")
@@ -70,10 +70,13 @@ CLAIMS["C12"] = ("BOUNDED stand-in only (labelled bounded, not proved): cut_thro
 CLAIMS["C13"] = ('Proof-level (Verus, extracted text): with the feature on, an NRD kernel is refused iff the same excess has an index entry fewer than relative_height blocks below the block being applied, an accepted one is recorded, other variants are untouched (txhashset::apply_kernel_rules); NRDRelativeHeight accepts exactly 1..=10080 (Kani, all u64, in the C10 unit). Block::verify_kernel_lock_heights returns Ok iff no height-locked kernel has lock_height > block height, for any number of kernels (Verus loop invariant); BOUNDED stand-in (<= 3 kernels, Kani): NRD kernels need the flag and header version >= 4, body lock_height == max. Coinbase maturity (iterator chain over LMDB lookups), per-fork maintenance of the NRD index during rewind and the pool path are not decided.',
     VERUS_TB + KANI_TB + "the NRD index is an uninterpreted most-recent-entry function.",
     'Verus contract on the extracted NRD rule + Kani bounded harness for block lock heights', "6 C13")
-CLAIMS["C14"] = ("Two clauses, proof-level (Kani): for ALL input/output/kernel counts and all chain types, a body admitted by the transaction weight rule assembles with the coinbase into a block within the "
-    "block weight limit (weight formula, AsTransaction/AsLimitedTransaction/AsBlock rules); the minimum-fee comparison uses shifted_fee == (sum of kernel fees) >> max fee_shift and weight * base. "
-    "Joint validity of the pool against the chain, reconciliation, eviction and reorg handling are history properties and are not decided.",
-    KANI_TB + "counts installed with Vec::set_len (no element is read); fee fold bounded to 2 kernels.", "Kani full-domain harnesses on the real functions", "6 C14")
+CLAIMS["C14"] = ("The admission clauses, proof-level. (Verus, extracted text) TransactionPool::add_to_pool stores an entry in the stempool or txpool only if that entry -- after de-aggregation -- passed the kernel-variant check, "
+    "PAYS AT LEAST THE MINIMUM FEE FOR ITS WEIGHT whatever the pool's fill level, validates standalone under the transaction weight limit and meets the lock-height rule; is_acceptable refuses a low-fee transaction as LowFeeTransaction before "
+    "looking at capacity (found violated on the pinned tree and repaired: finding F8); reconcile_block always runs the full re-validation of txpool and stempool. (Kani) for ALL input/output/kernel counts and all chain types, a body admitted by "
+    "the transaction weight rule assembles with the coinbase into a block within the block weight limit (weight formula, AsTransaction/AsLimitedTransaction/AsBlock rules); the minimum-fee comparison uses shifted_fee == (sum of kernel fees) "
+    ">> max fee_shift and weight * base. Joint validity of the pool contents against the chain (Pool::add_to_pool / reconcile / evict / bucket logic: iterator chains over aggregates), reorg-cache handling and the mineable set are history properties and are not decided.",
+    VERUS_TB + KANI_TB + "the pools' own add_to_pool / reconcile are abstract callees with ghost logs; convert_tx_v2 assumed to preserve the fee functions; counts installed with Vec::set_len (no element is read); fee fold bounded to 2 kernels.",
+    "Verus conjunction contracts on the extracted admission path + Kani full-domain harnesses on the real weight/fee functions", "6 C14")
 CLAIMS["C15"] = ("Arithmetic only, proof-level (Kani, all u64): chunk_start_idx(i) == 1024*chunk_idx(i) <= i < +1024, monotone; the in-chunk index used by apply_from is always inside the chunk. "
     "Path independence of the accumulator across histories, restart and rejection of tampered output roots are not decided.",
     KANI_TB, "Kani full-domain harness on the real functions", "6 C15")
@@ -81,9 +84,12 @@ CLAIMS["C19"] = ("Header level, proof-level (Kani): for ALL 11-byte headers x ch
     "msg_len <= 4 x the published per-type limit (independent table); unknown types only within the default limit; nothing within limits is refused; MsgHeader round trip. Verus: negotiate_protocol_version returns the lower version; the self-connection nonce ring (next_nonce) always contains the nonce it hands out, only ever holds old nonces plus the new one, loses at most one entry and only when full, and stays below its cap. Codec buffering under "
     "fragmentation, Headers batching and socket-level handshake refusals are not under contract.",
     KANI_TB + VERUS_TB, "Kani complete harnesses on the real read/write functions + Verus contracts on extracted handshake functions", "6 C19")
-CLAIMS["C20"] = ("Two encodings only, proof-level (Kani, full domain): derivation path <-> identifier and serialized path are exact inverses for every depth byte and all u32 elements; parent_path / "
-    "last_path_index for depths 0..=4. BIP32 derivation, commitments, range-proof create/verify/rewind and blinding arithmetic are libsecp256k1 behind FFI and are not decided.",
-    KANI_TB, "Kani full-domain harnesses on the real functions", "6 C20")
+CLAIMS["C20"] = ("The encodings and the message layer, proof-level. (Kani, full domain) derivation path <-> identifier and serialized path are exact inverses for every depth byte and all u32 elements; parent_path / "
+    "last_path_index for depths 0..=4; the range-proof message: for EVERY identifier with depth 0..=4, both switch modes and every amount, check_output on the builder's own proof_message recovers exactly that identifier and mode "
+    "(ProofBuilder and LegacyProofBuilder), a different amount is not recognised, and an arbitrary 20-byte message is accepted only with a zero prefix, a known switch byte and a matching commitment. (Verus, extracted text) "
+    "<ViewKey as ProofBuild>::check_output returns None ONLY for a malformed message, a path shorter than the view key's depth, a differing child number at its depth, a hardened step below it, or a derived key that does not match -- "
+    "so outputs at the view key's own depth are recognised. BIP32 derivation, commitments, range-proof create/verify/rewind and blinding arithmetic are libsecp256k1 behind FFI and are not decided.",
+    KANI_TB + VERUS_TB + "the Keychain in the message harnesses is a mock with an injective `commit`; ckd_pub / commit / to_pubkey are uninterpreted in the Verus unit.", "Kani full-domain harnesses on the real functions + Verus contract on the extracted view-key matcher", "6 C20")
 CLAIMS["C08"] = ("Deductive proof (Verus) on the real PruneList code of the representation invariant every translated read depends on: one cache entry per pruned root in position order, "
     "each the prefix sum of the per-root contributions (2*(2^h-1) nodes, 2^h leaves); get_shift/get_leaf_shift/get_total_* return exactly those prefix sums, calculate_next_* extend them, "
     "append_single and cleanup_subtree preserve the invariant and append / truncate the root sequence as specified; plus AppendOnlyFile::discard/rewind (flushed view restored). "
